@@ -417,13 +417,11 @@ def check(run):
 
     # (ii) ScanSplit
     depth = 3 if thorough else 2
-    sres = run.tlc("MC_ExprScan", "CONSTANT Depth = %d\nSPECIFICATION MCSpec\nINVARIANT PrintTerminal ScanSplit Accounting\nCHECK_DEADLOCK FALSE\n" % depth,
-                   name="mc-exprscan", coverage=not thorough, workers=workers, timeout=1500)
+    sres = run.tlc("MC_ExprScan", "CONSTANTS Depth = %d\n Rich = %s\nSPECIFICATION MCSpec\nINVARIANT PrintTerminal ScanSplit Accounting\nCHECK_DEADLOCK FALSE\n"
+                   % (depth, "TRUE" if thorough else "FALSE"), name="mc-exprscan", coverage=False, workers=workers, timeout=1500)
     if sres.violated:
         run.spec_violation(sres)
         raise MachineryError("ExprScan model violates %s" % sres.violated)
-    if not thorough and sres.coverage.get("MCNext", [0, 0])[1] == 0:
-        raise MachineryError("vacuous: the lexer never stepped in MC_ExprScan")
     # application order of the filter lists used in the scanner cases, from the Filters table
     ftab = {}
     for fl in ([], ["h"], ["trim", "h"], ["h", "trim"], ["g(..)"]):
